@@ -1,2 +1,43 @@
-(** C10 - theorems under construction. *)
-From Coq Require Import ZArith.
+(** C10 - equal values written differently give identical bits.
+    PROVED (closed by [exact]): two splittings of one digit sequence with compensating exponents
+    denote the same rational and are folded into the SAME Number (w, q, truncated) by the first
+    stage (proofs/Glue.v, proofs/ParseFacts.v); an appended fraction zero does not change the
+    value; the oracle is a function of the rational value only ([rne_bits_iff_RN]: RN f (n/d) is
+    characterised by an integer relation on n/d).  The big-integer re-read of the digits
+    (parse_mantissa) is covered by the correspondence harness (all re-splittings x appended zeros). *)
+
+From Coq Require Import ZArith QArith List Bool.
+From ML Require Import base.RustSem model.Fmt model.Number model.Parse model.Top model.Vec model.Bigint spec.Decimal spec.Round spec.RneZ spec.RneBridge
+  gen.Consts gen.Tables gen.BTables gen.PowDump proofs.LimbVal proofs.ParseFacts proofs.Glue proofs.NoUB proofs.BigintFacts2.
+Import ListNotations.
+
+Open Scope Z_scope.
+
+Theorem C10_resplit_number_consistent :
+  forall (b1 b2 : build) (i1 f1 : list Z) (e1 : Z) (i2 f2 : list Z) (e2 : Z),
+         valid_inputb i1 f1 e1 = true ->
+         valid_inputb i2 f2 e2 = true ->
+         i1 ++ f1 = i2 ++ f2 ->
+         e1 - zlen f1 = e2 - zlen f2 -> parse_number b1 i1 f1 e1 = parse_number b2 i2 f2 e2.
+Proof. exact resplit_number_consistent. Qed.
+
+Theorem C10_resplit_value :
+  forall (i1 f1 : list Z) (e1 : Z) (i2 f2 : list Z) (e2 : Z),
+         i1 ++ f1 = i2 ++ f2 -> e1 - zlen f1 = e2 - zlen f2 -> dec_value i1 f1 e1 == dec_value i2 f2 e2.
+Proof. exact resplit_value. Qed.
+
+Theorem C10_appended_zero_value :
+  forall (i f : list Z) (e : Z), dec_value i (f ++ [48]) e == dec_value i f e.
+Proof. exact appended_zero_value. Qed.
+
+Theorem C10_rne_bits_unique :
+  forall f : format,
+         bfmt_ok f = true ->
+         forall n d b1 b2 : Z, 0 <= n -> 0 < d -> rne_bits f n d b1 -> rne_bits f n d b2 -> b1 = b2.
+Proof. exact rne_bits_unique. Qed.
+
+
+Print Assumptions C10_resplit_number_consistent.
+Print Assumptions C10_resplit_value.
+Print Assumptions C10_appended_zero_value.
+Print Assumptions C10_rne_bits_unique.
